@@ -80,6 +80,9 @@ def generate(rng, tier):
     big = tier != "quick"
     n_syn = rng.randint(1, 6 if big else 4)
     usr = [f"USR.{c}" for c in "ABCDEFGHIJ"][: rng.randint(2, 10 if big else 6)]
+    if rng.random() < 0.04:
+        # a configuration with a long life: hundreds of descriptions arrive over time
+        usr = [f"USR.N{i}" for i in range(rng.choice([40, 70, 130, 260]))]
     real_used = rng.sample(sorted(REAL), rng.randint(1, 7 if big else 4))
     comps = []
     syn_ids = []
